@@ -6,6 +6,7 @@
 #![cfg_attr(feature = "nightly", feature(generic_const_exprs))]
 #![cfg_attr(feature = "nightly", allow(incomplete_features))]
 mod concat;
+mod doubling;
 mod drv_rayon;
 mod durable;
 mod envelope;
